@@ -507,6 +507,13 @@ SUBS = [
 
 KNOWN_PREDICATES = {}
 
+# thorough tier: coverage-guided campaigns (atheris/libFuzzer mutating the bytes Hypothesis draws from)
+FUZZ = {
+    "subs": ['chains', 'chains_long', 'methods'],
+    "targets": ['cogent3.core.sequence', 'cogent3.core.new_sequence'],
+    "execs_thorough": 40_000, "jobs_thorough": 4, "execs_quick": 1000, "jobs_quick": 2,
+}
+
 META = {
     "technique": "Hypothesis-generated operation chains against a Python-string model carrying displayed parent indices; method differential view vs fresh sequence",
     "level_text": "Thousands of generated slice/rc/convert/copy chains per run on both sequence implementations, all five observers compared with a string model after every step, parent coordinates checked by re-reading the parent, and every public read-only method compared between the view and a freshly built sequence. Exploration: chain depth and lengths are bounded (7 ops/40 symbols quick, 9/200 for the long sub-check).",
